@@ -279,7 +279,7 @@ fn main() {
                 };
                 let t = (wall as i64 + dt).max(0) as u64;
                 let rn = if rng.chance(1, 8) { node } else { rng.below(256) };
-                evs.push(format!("r:{:x}:{:x}", wall, mk(t, *rng.pick(&[0u64, 1, 5, 0, 3, 7, 2, 9, 65534, 65535]), rn)));
+                evs.push(format!("r:{:x}:{:x}", wall, mk(t, *rng.pick(&[0u64, 1, 5, 0, 3, 7, 2, 9, 65534, 65535, 65520, 65526, 65531]), rn)));
             }
         }
         run_seq(&mut w, node, wall0, &evs);
